@@ -24,24 +24,27 @@ BODIES = {
     2: "import a\nw = a.v\n",
     3: "from pkg import b\nu = b.v\n",
     4: "class K:\n    def f(self):\n        return 1\nv = K()\n",
+    5: "from q import b\nz = b.v\n",
+    6: "from a import *\nx = K\ny = v\n",
 }
 
 INVARIANTS = ["FilesCoherent", "SourceCoherent", "InferNoStalePositive", "CachedIsWatched"]
 
 
-def constants(max_ops, external=True):
+def constants(max_ops, external=True, two_packages=False):
     return {
-        "DirNames": {"pkg"}, "FileNames": {"a", "b", "i"}, "MaxDepth": 2,
+        "DirNames": {"pkg", "q"}, "FileNames": {"a", "b", "i"}, "MaxDepth": 2,
         "MaxOps": max_ops, "Contents": {1, 2},
-        "ImportsOf": tlc.Sub("MCImports"), "InitTreesC": tlc.Sub("MCInitTreesC"),
-        "Universe": tlc.Sub("MCUniverse"), "AllowExternal": external,
+        "ImportsOf": tlc.Sub("MCImports"),
+        "InitTreesC": tlc.Sub("MCInitTreesC2" if two_packages else "MCInitTreesC"),
+        "Universe": tlc.Sub("MCUniverse2" if two_packages else "MCUniverse"), "AllowExternal": external,
     }
 
 
 def rpath(p):
     names = list(p)
     last = names[-1]
-    if last == "pkg":
+    if last in ("pkg", "q"):
         return "/".join(names)
     if last == "i":
         names[-1] = "__init__.py" if len(names) > 1 else "i.py"
@@ -51,7 +54,7 @@ def rpath(p):
 
 
 def is_dir(p):
-    return p[-1] == "pkg"
+    return p[-1] in ("pkg", "q")
 
 
 def render(root, pairs):
@@ -64,14 +67,23 @@ def render(root, pairs):
                 f.write(BODIES[v])
 
 
-def battery(project):
+def autoimport_index(ai):
+    out = {}
+    for name in ("v", "w", "u", "K", "a", "b"):
+        out[name] = sorted(set(ai.get_modules(name)))
+    return out
+
+
+def battery(project, autoimport=None):
     """Everything C13 lists, as plain data."""
     from rope.contrib import findit
     out = {}
+    if autoimport is not None:
+        out["autoimport"] = autoimport_index(autoimport)
     out["files"] = sorted(r.path for r in project.get_files())
     out["python_files"] = sorted(r.path for r in project.get_python_files())
     fm = {}
-    for name in ("a", "b", "pkg", "pkg.b", "pkg.a", "i"):
+    for name in ("a", "b", "pkg", "pkg.b", "pkg.a", "i", "q", "q.b"):
         m = project.find_module(name)
         fm[name] = m.path if m is not None else None
     out["find_module"] = fm
@@ -92,6 +104,32 @@ def battery(project):
             except Exception as e:  # objects without attributes
                 oa = "exc:" + type(e).__name__
             inferred["%s:%s" % (res.path, name)] = [type(obj).__name__, type(obj.get_type()).__name__, oa]
+    # every identifier token resolved through its scope (what go-to-definition / rename use)
+    import io
+    import tokenize
+    from rope.base import evaluate
+    uses = {}
+    for res in sorted(project.get_python_files(), key=lambda r: r.path):
+        pm = project.get_pymodule(res)
+        text = pm.source_code
+        starts = [0]
+        for ln in text.splitlines(True):
+            starts.append(starts[-1] + len(ln))
+        try:
+            toks = list(tokenize.generate_tokens(io.StringIO(text).readline))
+        except (tokenize.TokenError, SyntaxError, IndentationError):
+            continue
+        for tok in toks:
+            if tok.type == tokenize.NAME and tok.string not in ("import", "from", "class", "def", "return", "as"):
+                off = starts[tok.start[0] - 1] + tok.start[1]
+                pyname = evaluate.eval_location(pm, off)
+                if pyname is None:
+                    uses["%s@%d" % (res.path, off)] = None
+                else:
+                    mod, line = pyname.get_definition_location()
+                    r2 = mod.get_resource() if mod is not None else None
+                    uses["%s@%d" % (res.path, off)] = [r2.path if r2 is not None else None, line]
+    out["uses"] = uses
     out["source"] = src
     out["attrs"] = attrs
     out["defloc"] = defloc
@@ -114,7 +152,12 @@ def run_behaviour(beh):
     try:
         trail = beh["trail"]
         render(root, trail[0]["tree"])
-        project = project_mod.Project(root, ropefolder=None)
+        prefs = {"ignored_resources": beh["ignored"]} if beh.get("ignored") else {}
+        project = project_mod.Project(root, ropefolder=None, **prefs)
+        from rope.contrib.autoimport.sqlite import AutoImport
+        warm_ai = AutoImport(project, observe=True, memory=True)
+        for r0 in project.get_python_files():     # generate_cache() forks a process pool; same effect
+            warm_ai.update_resource(r0)
         clock = [os.path.getmtime(root) + 1000.0]
 
         def tick(path):
@@ -186,12 +229,15 @@ def run_behaviour(beh):
         real_cached = sorted(r.path for r in project.pycore.module_cache.module_map)
         warm_exc = fresh_exc = None
         try:
-            warm = battery(project)
+            warm = battery(project, warm_ai)
         except Exception as e:
             warm, warm_exc = None, "%s: %s" % (type(e).__name__, str(e)[:200])
-        fresh_project = project_mod.Project(root, ropefolder=None)
+        fresh_project = project_mod.Project(root, ropefolder=None, **prefs)
         try:
-            fresh = battery(fresh_project)
+            fresh_ai = AutoImport(fresh_project, observe=False, memory=True)
+            for r0 in fresh_project.get_python_files():
+                fresh_ai.update_resource(r0)
+            fresh = battery(fresh_project, fresh_ai)
         except Exception as e:
             fresh, fresh_exc = None, "%s: %s" % (type(e).__name__, str(e)[:200])
         if fresh is None:
@@ -204,18 +250,35 @@ def run_behaviour(beh):
         if not diff:
             return {"fails": [], "checked": True, "beh": beh, "cached": real_cached}
         stale_mods = sorted(rpath(p) for p in beh["stale"])
-        # which modules' answers differ
-        mods = set()
-        for k in diff:
-            for item in set(warm[k]) | set(fresh[k]):
-                if warm[k].get(item) != fresh[k].get(item) if isinstance(warm[k], dict) else False:
-                    mods.add(item.split(":")[0])
-        only_inferred = set(diff) <= {"inferred", "defloc", "attrs"}
-        key = {"clauses": sorted(diff),
-               "stale_negative_inference": bool(only_inferred and mods and mods <= set(stale_mods))}
-        return {"fails": sorted(diff), "key": key, "beh": beh,
+        steps = beh["trail"][1:]
+        folder_op = any(s["act"] == "rope" and s["leaf"]["k"] in ("RM", "MV") and is_dir(s["leaf"]["p"]) for s in steps)
+        ext_op = any(s["act"] == "ext" for s in steps)
+        failures = []
+        # (1) the auto-import index is its own mechanism
+        if "autoimport" in diff:
+            failures.append({"clauses": ["autoimport"], "autoimport_only": True, "stale_negative_inference": False,
+                             "after_folder_remove_or_move": folder_op, "after_external_change": ext_op})
+        # (2) resolution / inference answers, per module
+        infer_secs = [k for k in diff if k in ("inferred", "defloc", "attrs", "uses")]
+        if infer_secs:
+            mods = set()
+            for k in infer_secs:
+                for item in set(warm[k]) | set(fresh[k]):
+                    if warm[k].get(item) != fresh[k].get(item):
+                        mods.add(item.split(":")[0].split("@")[0])
+            failures.append({"clauses": sorted(infer_secs),
+                             "stale_negative_inference": bool(mods and mods <= set(stale_mods)),
+                             "source_roots_changed": bool(beh.get("rootsChanged")) and not (mods and mods <= set(stale_mods)),
+                             "modules": None})
+        # (3) everything else (files, find_module, source, occurrences)
+        rest = [k for k in diff if k not in ("autoimport", "inferred", "defloc", "attrs", "uses")]
+        if rest:
+            failures.append({"clauses": sorted(rest), "stale_negative_inference": False})
+        for f in failures:
+            f.pop("modules", None)
+        return {"fails": sorted(diff), "keys": failures, "beh": beh,
                 "obs": {"warm": {k: warm[k] for k in diff}, "fresh": {k: fresh[k] for k in diff},
-                        "spec_stale": stale_mods, "differing_modules": sorted(mods), "cached": real_cached}}
+                        "spec_stale": stale_mods, "roots_changed": beh.get("rootsChanged"), "cached": real_cached}}
     finally:
         common.rmtree(root)
 
@@ -228,14 +291,23 @@ def main(tier):
     behs = []
     seen = set()
     plan = [("exhaustive-3ops", constants(4), "export", None),
+            ("two-packages-3ops", constants(4, external=False, two_packages=True), "export", None),
+            ("two-packages-q-ignored-3ops", constants(4, external=False, two_packages=True), "export-ignored", None),
             ("deep-view-4ops", constants(5), "deep", None),
             ("simulation-8ops", constants(9), "sim", 2000 if tier == "quick" else 30000)]
     if tier == "thorough":
-        plan.insert(1, ("exhaustive-4ops", constants(5), "export", None))
-        plan[2] = ("deep-view-5ops", constants(6), "deep", None)
+        plan = [("exhaustive-4ops", constants(5), "export", None),
+                ("two-packages-4ops", constants(5, external=False, two_packages=True), "export", None),
+                ("deep-view-5ops", constants(6), "deep", None),
+                ("deep-view-two-packages-5ops", constants(6, two_packages=True), "deep", None),
+                ("simulation-8ops", constants(9), "sim", 30000),
+                ("simulation-two-packages-8ops", constants(9, two_packages=True), "sim", 15000)]
     for name, consts, mode, num in plan:
         cfg = os.path.join(common.SCRATCH_BASE, "c13_%d.cfg" % os.getpid())
         got = []
+        ignored = None
+        if mode == "export-ignored":
+            mode, ignored = "export", ["q"]
         if mode == "export":
             tlc.write_cfg(cfg, constants=consts, invariants=INVARIANTS + ["Export"])
             res = tlc.run("MC_RopeCache", cfg, on_tagged=lambda t, v, got=got: got.append(v), collect_tags=False)
@@ -264,7 +336,9 @@ def main(tier):
         for b in got:
             if mode == "sim" and len(b["trail"]) < 6:
                 continue
-            d = common.digest(b["trail"])
+            if ignored:
+                b["ignored"] = ignored
+            d = common.digest([b["trail"], ignored])
             if d not in seen:
                 seen.add(d)
                 behs.append(b)
@@ -287,9 +361,10 @@ def main(tier):
                     samples.append([[s["act"], s["leaf"]["k"], "/".join(s["leaf"]["p"]), "/".join(s["leaf"]["q"]),
                                      s["leaf"]["c"]] for s in beh["trail"][1:]])
         if r["fails"]:
-            verdict.failure(r["key"], {"property": PROP, "key": r["key"],
-                                       "trail": [[s["act"], s["leaf"]] for s in beh["trail"]],
-                                       "init": beh["trail"][0]["tree"], "observed": r["obs"]})
+            for key in r.get("keys") or [r["key"]]:
+                verdict.failure(key, {"property": PROP, "key": key,
+                                      "trail": [[s["act"], s["leaf"]] for s in beh["trail"]],
+                                      "init": beh["trail"][0]["tree"], "observed": r["obs"]})
     if not samples and behs:
         b = behs[len(behs) // 2]
         samples.append([[s["act"], s["leaf"]["k"], "/".join(s["leaf"]["p"])] for s in b["trail"][1:]])
